@@ -138,6 +138,9 @@ def search(ctx, drivers, honest):
         if not h:
             continue
         cands = [(label, mutate(variant, h["sig"], **kw)) for label, kw in witness_list(lvl, variant) + boundary_grid(lvl, variant)]
+        for hf in [f for f in vc.VAR[variant]["ints"] if f.startswith("h") and f != "hint_b"]:
+            for hv in (19, 20, 21):
+                cands.append(("hint-edge:%s=%d" % (hf, hv), mutate(variant, h["sig"], **{hf: hv})))
         mt = vc.max_trl(lvl, variant)
         for t in (mt + 1, mt + 2, -1):
             sv = order_valid_sig(drivers, lvl, variant, h["pk"], t)
@@ -192,6 +195,10 @@ def run(ctx):
         base += random_probes(rr, lvl, variant, n_int, n_big)
         for label, kw in base:
             probes.append((lvl, variant, label, h["pk"], mutate(variant, h["sig"], **kw), h["msg"]))
+        # every hint field at the edge of the table branch of the *_from_hint routines (NQR_TABLE / Z_NQR_TABLE have 20 entries)
+        for hf in [f for f in vc.VAR[variant]["ints"] if f.startswith("h") and f not in ("hint_b",)]:
+            for hv in (0, 18, 19, 20, 21, 22):
+                probes.append((lvl, variant, "hint-edge:%s=%d" % (hf, hv), h["pk"], mutate(variant, h["sig"], **{hf: hv}), h["msg"]))
         # kernels that pass every order test, so that the chain (and its strategy row) is reached
         mt = vc.max_trl(lvl, variant)
         for t in ((0, mt - 1, mt, mt + 1) if (lvl == 1 or not quick) else (mt, mt + 1)):
@@ -204,7 +211,7 @@ def run(ctx):
             probes.append((lvl, variant, "E_aux:" + nm, h["pk"], vc.sig_tokens(variant, d), h["msg"]))
             pd = vc.pk_dict(h["pk"]); pd.update(Are=are, Aim=aim, Cre=cre, Cim=cim)
             probes.append((lvl, variant, "pk.curve:" + nm, vc.pk_tokens(pd), h["sig"], h["msg"]))
-        for hv in (-1, -7, 19, 20, 21, vc.INT_MAX, vc.INT_MIN):
+        for hv in (-1, -7, 0, 18, 19, 20, 21, 22, vc.INT_MAX, vc.INT_MIN):
             pd = vc.pk_dict(h["pk"]); pd.update(h0=hv)
             probes.append((lvl, variant, "pk.hint0=%d" % hv, vc.pk_tokens(pd), h["sig"], h["msg"]))
             pd = vc.pk_dict(h["pk"]); pd.update(h1=hv)
